@@ -353,7 +353,10 @@ class Engine:
         P = self.P
         if not P.has(fpath):
             return None
-        key = (fpath, tuple(args))
+        # the context bit: obligations that fail below a documented panicker are charged to the entering call site (oblige), so a summary computed there must not
+        # be reused for a caller outside one - its failures would never be reported at their own sites
+        under_doc = bool(self.docpanic) and any(f in self.docpanic for f in self.callstack)
+        key = (fpath, tuple(args), under_doc)
         if key in self.memo:
             self.last_fails = self.memo_fails.get(key, 0)
             self.failstack[-1] += self.last_fails
